@@ -258,6 +258,10 @@ class Run:
             self.cov["evaluations"] += st.get("compared", 0)
             self.cov.setdefault("requests_on_real_code", 0)
             self.cov["requests_on_real_code"] += st.get("compared", 0)
+            if st.get("oracle_checked"):
+                self.cov["oracle_crosschecked_with_tlc"] = self.cov.get("oracle_crosschecked_with_tlc", 0) + st["oracle_checked"]
+            if st.get("oracle_mismatch"):
+                raise Infra("the harness' oracle splitter disagrees with the splits TLC computed on %d cases" % st["oracle_mismatch"])
         fails, ncases, nev = self.validate(tmodule, cfg_tmpl, trace, chunk_events, label=label)
         self.account(trace, ncases, sample_n)
         self.judge(label, hmodule, fails, trace, tmodule, cfg_tmpl, replay_args, env)
